@@ -20,7 +20,9 @@ EXTENDS Recon, Json
 
 CONSTANTS MaxToks,      \* longest token sequence
           MaxStack,     \* deepest parser state stack explored
-          BadFragments  \* ill-formed fragments spliced in by the mutation action ({} = none)
+          BadFragments, \* ill-formed fragments spliced in by the mutation action ({} = none)
+          Rejects,      \* TRUE: also feed tokens the state does not allow (the walk ends there)
+          EmitOpen      \* TRUE: also print the sequences that end inside a body (plain truncations)
 
 VARIABLES pstack,    \* the parser's Vec<ParseState>
           toks,      \* tokens fed so far
@@ -36,6 +38,7 @@ Feed(t) ==
     /\ verdict = "open" /\ Len(toks) < MaxToks
     /\ LET r == PStep(pstack, t) IN
        /\ Len(r.stk) <= MaxStack
+       /\ Rejects \/ r.ok
        /\ pstack' = r.stk
        /\ verdict' = IF ~r.ok THEN "reject" ELSE IF r.stk = <<>> THEN "accept" ELSE "open"
     /\ toks' = Append(toks, t)
@@ -75,5 +78,17 @@ TypeOK == /\ verdict \in {"open", "accept", "reject", "unknown"}
           /\ (verdict = "accept") => pstack = <<>>
 
 Predicted == IF verdict = "open" THEN (IF AcceptAtEof(pstack) THEN "accept-eof" ELSE "reject-eof") ELSE verdict
-EmitToks == (toks # <<>>) => PrintT(<<"TOKS", ToJson([toks |-> toks, verdict |-> Predicted, depth |-> Len(pstack)])>>)
+\* byte-level mutation operators applied by the harness to the concretised text of accepted
+\* sequences (positions in 1/1000 of the text length); rep / wrap grow the text to KiB size and
+\* to deep nesting
+Positions == {0, 120, 333, 500, 667, 880, 999}
+Mutations ==
+    {[m |-> k, at |-> p] : k \in {"del", "dup", "swap", "trunc"}, p \in Positions}
+    \cup {[m |-> "flip", at |-> p, bit |-> b] : p \in Positions, b \in {0, 5, 7}}
+    \cup {[m |-> "ins", at |-> p, s |-> x] : p \in Positions, x \in {"{", "}", "(", ")", "@", ":", ",", "\"", "\\", "%", "#", "\n"}}
+    \cup {[m |-> "rep", times |-> n] : n \in {2, 40, 200}}
+    \cup {[m |-> "wrap", depth |-> d, attr |-> a] : d \in {1, 64, 300, 1500}, a \in BOOLEAN}
+EmitStatic == (lastAct.k = "init") => \A m \in Mutations : PrintT(<<"MUT", ToJson(m)>>)
+
+EmitToks == (toks # <<>> /\ (EmitOpen \/ Predicted # "reject-eof")) => PrintT(<<"TOKS", ToJson([toks |-> toks, verdict |-> Predicted, depth |-> Len(pstack)])>>)
 =============================================================================
